@@ -96,8 +96,8 @@ theorem code_acyclic_aux (env : Env) (hr : Ranked env) (x : GVal) : PA1 env x :=
     refine ⟨?_, ?_⟩
     · intro visited w e hv
       simp only [Code.cEdge, onPath_false true visited e.target hv, onPath_off]
-      have h0 : ∀ u ∈ ([] : List Nat), u < e.target := by intro u hu; cases hu
-      rw [ih.2 visited w _ _ hv, ih.2 [] [] _ _ h0]
+      simp only [Bool.false_eq_true, if_false]
+      rw [ih.2 visited w _ _ hv]
     · intro visited w t _; rfl
   · -- []
     refine ⟨?_, ?_⟩
@@ -191,7 +191,9 @@ theorem code_spec_aux (env : Env) (x : GVal) : PB1 env x := by
     · intro w e hd
       simp only [Dev.devEdge, Dev.nilDev] at hd
       simp only [Code.cEdge, Spec.vEdge, onPath_off]
-      cases hw : e.wrap <;> simp [hw] at hd ⊢ <;> simp [hd]
+      cases hw : e.wrap <;> simp [hw] at hd ⊢ <;> (try simp [hd])
+      -- `.ptr`: spec = ¬required; code = ¬hasTags ∧ ¬required; no deviation means required ∨ ¬hasTags
+      all_goals (cases hr : (e.tag == ETag.required) <;> cases ht : Code.hasTags (decl env e.target) <;> simp_all)
     · intro w t _; rfl
   · -- node
     intro v kids ih
@@ -334,12 +336,15 @@ theorem c06_graph_full_false : ¬ c06_graph_full := by
   revert this
   decide
 
-/-- a type recursive through a map value: the construction never returns (`expands` runs out of any fuel) -/
-theorem c06_graph_map_recursion_diverges (fuel : Nat) :
-    Code.expands [⟨some 3, [⟨.map, 0, .required⟩]⟩] fuel [] 0 = false := by
-  induction fuel with
-  | zero => rfl
-  | succ n ih => simp [Code.expands, decl, Edge.tagged, Wrap.isMap, Code.hasTags, ih]
+/-- `type R struct { V int "min=3"; M map[string]R "required" }` -/
+def envMapRec : Env := [⟨some 3, [⟨.map, 0, .required⟩]⟩]
+
+/-- a type recursive through a map value: the construction returns (the map walk shares `visited`), and the type
+    joins the recursive class — `R{V:5, M:{"a": R{V:1, M:{}}}}` is accepted -/
+theorem c06_graph_map_recursion_builds :
+    Code.builds envMapRec = true ∧
+    Code.check envMapRec (.node 5 [.list [.node 1 [.list []]]]) = true ∧
+    Spec.vStruct envMapRec 0 (.node 5 [.list [.node 1 [.list []]]]) = false := by decide
 
 -- the hypotheses of `c06_graph_partial` are inhabited: the same tagged type reached by value and as a slice
 -- element, a value whose second occurrence violates its rule
